@@ -22,36 +22,64 @@ Definition M (k : string) (v : Z) : string * Z := (k, v).
 Definition S (id : N) (disk : string) : vshort := (id, disk).
 
 (* Follow the implementation step by step: after each event the observed tree must be one of
-   the model's successor states (Go map orders are not observable, so all orders are tried).
-   Returns (model agrees at every step, first known-finding trigger met on the way). *)
-Fixpoint replay (st : state) (os : list op) (ob : list state) (trig : option N) : bool * option N :=
+   the model's successor states.  Go map orders are not observable: the order [] is tried first
+   and, only when it does not reproduce the observation, every order (step_all, which is exactly
+   the set of states reachable under some order: c12_step_all_iff_some_order). *)
+Definition step_match (st : state) (o : op) (s : state) : option state :=
+  let s0 := step [] st o in
+  if state_eqb s0 s then Some s0
+  else match o with
+       | AdjustMax _ _ | FullEc _ _ => find (fun s' => state_eqb s' s) (step_all st o)
+       | _ => None
+       end.
+
+Fixpoint replay (st : state) (os : list op) (ob : list state) : bool :=
   match os, ob with
-  | [], [] => (true, trig)
+  | [], [] => true
   | o :: os', s :: ob' =>
-      let trig' := match trig with Some k => Some k | None => trigger st o end in
-      match find (fun s' => state_eqb s' s) (step_all st o) with
-      | Some s' => replay s' os' ob' trig'
-      | None => (false, trig')
+      match step_match st o s with
+      | Some s' => replay s' os' ob'
+      | None => false
       end
-  | _, _ => (false, trig)
+  | _, _ => false
   end.
 
-(* property oracle: every observed tree is exact w.r.t. what is registered in it and the
-   max counts reported so far *)
-Fixpoint prop_all (r : ref_state) (os : list op) (ob : list state) : bool :=
+(* Property oracle, evaluated on the OBSERVED trees only (pre-state = previous observation).
+   Per event:
+     never : clauses no finding excuses -- volume, remote-volume and max-volume counters exact
+             (at every level, max also against the reported counts); an event outside finding 0
+             changes no node's EC drift (UnRegisterDataNode takes the node's drift off its
+             ancestors, new nodes start at 0); a full heartbeat outside its finding leaves exactly
+             the reported set registered;
+     full  : the whole property -- every counter exact, free slots exact, registration clause;
+     hit   : the finding this event actually exhibits (trigger on AND the clause it excuses broken).
+   Verdict: never fails -> code 2 (no trigger can excuse it); full fails -> 10+k with k the FIRST
+   event that exhibits a finding. *)
+Fixpoint walk (s : state) (r : ref_state) (os : list op) (ob : list state) : bool * bool * option N :=
   match os, ob with
-  | o :: os', s :: ob' => let r' := ref_step r o in exact_b s r' && prop_all r' os' ob'
-  | _, _ => true
+  | o :: os', s' :: ob' =>
+      let r' := ref_step r o in
+      let k0 := step_k0 s o in
+      let k1 := step_k1 s o in
+      let drift_same := drift_step_ok o s s' in
+      let regok := step_reg_ok s s' o in
+      let never := exact_noec_b s' r' && (k0 || drift_same) && (k0 || k1 || regok) in
+      let full := exact_b s' r' && free_exact_b s' r' && regok in
+      let hit := if k0 && negb (drift_same && regok) then Some 0%N
+                 else if k1 && negb regok then Some 1%N else None in
+      let '(n2, f2, h2) := walk s' r' os' ob' in
+      (never && n2, full && f2, match hit with Some k => Some k | None => h2 end)
+  | _, _ => (true, true, None)
   end.
 
 Definition has_payload (s : state) : bool :=
   existsb (fun e => match i_vols (snd e), i_ecs (snd e) with [], [] => false | _, _ => true end) s.
 
 Definition check (c : case) : outcome :=
-  let '(corr, trig) := replay init_state (ops c) (obs c) None in
-  {| o_corr := corr && forallb wf_op (ops c);
-     o_prop := prop_all [] (ops c) (obs c);
-     o_trig := trig;
+  let '(never, full, hit) := walk init_state [] (ops c) (obs c) in
+  {| o_corr := replay init_state (ops c) (obs c) && forallb wf_op (ops c);
+     o_prop := never && full;
+     o_trig := if never then hit else None;
      o_nontrivial := existsb has_payload (obs c) |}.
 
 Definition summarize_cases (l : list case) : summary := summarize check l.
